@@ -24,7 +24,7 @@ EXPLANATION = (
     "range on that side (spos - 1 on the left, epos on the right), never from a kept neighbour."
     ' Added after seed round 3: (9) ACCUM - running positions of the canvas composition loops (shards_trim_sides, CanvasJoin, CanvasCombine, shards_trim_rows, the rle walkers) advance in every continuing iteration, `continue` paths included; (10) the column-frame rule of calc_trim_text (C11.9).'
     " Round 4: the coords shift of pad_trim_left_right / trim is made under exactly the conditions under which the shards are replaced; (11) LOOPFRESH - per-shard state (content_delta's row memo, new_cviews, the running column) is defined anew for every shard."
-    " Round-4 triage: (12) content_delta pairs cviews by screen column - the unchanged marker is produced from column lists computed with the shard tails, and both tails are carried forward for every shard consumed or stepped over."
+    " Round-4 triage: (12) content_delta pairs cviews by screen column - the unchanged marker is produced from column lists computed with the shard tails, and both tails are carried forward for every shard consumed or stepped over; each column list pairs a shard's cviews with the tail of the same canvas. Round 5: (13) the two content-iterator sites of shard_body() pass canv.content() the same arguments."
 )
 NOT_DECIDED = "Cell-for-cell equality with the grid model, the width arithmetic of cutting wide characters, content_delta round trip - statements about values of the shard algebra."
 ASSUMPTIONS = []
@@ -252,6 +252,15 @@ def rule_delta_columns(ctx: Ctx) -> RuleResult:
                 if len(col_args) < 2:
                     rr.add(finding("PAIR", c_fi, call, f"`{norm(call, 60)}` pairs the cviews two shards list by their offset within the lists: the cviews of earlier shards that are still running (the shard tails) shift the listed ones to other screen columns, so a leaf canvas that moved sideways is marked unchanged and the delta applied to the old rows does not reproduce the new content", construct=f"{m.name} called without tail-aware columns"))
                     continue
+                # each column list is computed from a shard's cviews and the tail of the *same* canvas: the tail
+                # variable Y paired with cviews X is the one advanced by `Y = shard_body_tail(.., shard_body(X, Y, ..))`
+                for a in col_args:
+                    if len(a.args) >= 2 and isinstance(a.args[0], ast.Name) and isinstance(a.args[1], ast.Name):
+                        X, Y = a.args[0].id, a.args[1].id
+                        same = any(isinstance(n, ast.Assign) and any(isinstance(t, ast.Name) and t.id == Y for t in n.targets) and isinstance(n.value, ast.Call) and callee_name(n.value) == "shard_body_tail" and any(isinstance(b, ast.Call) and callee_name(b) == "shard_body" and len(b.args) >= 2 and isinstance(b.args[0], ast.Name) and b.args[0].id == X and isinstance(b.args[1], ast.Name) and b.args[1].id == Y for b in ast.walk(n.value)) for n in c_fi.own_nodes())
+                        rr.inst(f"{short(c_fi)}: {norm(a, 50)}", True, {"column_computation": norm(a, 60), "tail_belongs_to_the_same_canvas": same})
+                        if not same:
+                            rr.add(finding("PAIR", c_fi, a, f"`{norm(a, 60)}` computes the columns of `{X}` with the tail `{Y}`, which is carried forward from another shard stream (no `{Y} = shard_body_tail(.., shard_body({X}, {Y}, ..))`): when the two canvases have different tall cviews running, the old canvas's cviews get the new canvas's offsets and a leaf that moved sideways is marked unchanged", construct=f"columns of {X} computed with the other canvas's tail {Y}"))
                 # (b) the tails are carried forward
                 tails = []
                 for a in col_args:
@@ -273,6 +282,30 @@ def rule_delta_columns(ctx: Ctx) -> RuleResult:
                     rr.inst(f"{short(c_fi)}: skip loop", True, {"loop": norm(w, 60), "tail_updates": len(upd)})
                     if not upd:
                         rr.add(finding("PAIR", c_fi, w, f"`{norm(w, 60)}` steps over shards of the old canvas without carrying their unfinished cviews into the tail: after a skipped shard the old canvas's columns are computed without the cviews still running there", construct="old canvas's shards skipped without tail update"))
+    return rr
+
+
+def rule_shard_body_sites(ctx: Ctx) -> RuleResult:
+    """shard_body() creates the content iterator of a new cview at two places - inside the gap loop (cviews to the left
+    of a cview running down from the shard above) and in the trailing loop.  Both are the same operation on the same
+    unpacked cview fields and must pass the same arguments to canv.content(): a site that leaves out attr_map renders
+    those cviews without the attribute mapping fill_attr_apply() recorded for them."""
+    p = ctx.p
+    rr = RuleResult("SIB", "C02.13", "the two content-iterator sites of shard_body() pass canv.content() the same arguments", floor=2)
+    fi = p.func(f"{CV}.shard_body")
+    calls = [c for c in fi.own_nodes() if isinstance(c, ast.Call) and isinstance(c.func, ast.Attribute) and c.func.attr == "content"]
+    if len(calls) < 2:
+        raise AnalysisError("shard_body: expected two canv.content(...) call sites")
+    sigs = {}
+    for c in calls:
+        sig = (tuple(ast.unparse(a) for a in c.args), tuple(sorted((k.arg, ast.unparse(k.value)) for k in c.keywords)))
+        sigs.setdefault(sig, []).append(c)
+        rr.inst(f"site line +{c.lineno - fi.node.lineno}", True, {"call": norm(c, 80)})
+    if len(sigs) > 1:
+        ref = max(sigs, key=lambda k: len(k[0]) + len(k[1]))
+        for sig, cs in sigs.items():
+            if sig != ref:
+                rr.add(finding("SIB", fi, cs[0], f"`{norm(cs[0], 70)}` passes other arguments than the sibling site `{norm(sigs[ref][0], 70)}`: cviews that sit to the left of a cview carried over from the shard above are rendered without the missing argument (the attribute mapping set by fill_attr_apply is ignored for them)", construct=f"content() sites disagree: {norm(cs[0], 70)}"))
     return rr
 
 
@@ -309,6 +342,7 @@ def run(ctx: Ctx):
         rule_cut_attr(ctx),
         rule_delta(ctx),
         rule_delta_columns(ctx),
+        rule_shard_body_sites(ctx),
         rule_get_or(ctx),
         accum.run_accum(p, "C02.9", "C02", floor=5),
         _trim_frame(ctx),
@@ -318,6 +352,8 @@ def run(ctx: Ctx):
 
 _C = "urwid/canvas.py"
 MUTANTS = [
+    Mut("shard-body-gap-site-drops-attr-map", _C, "shard_body", "                new_iter = canv.content(trim_left, trim_top, cols, rows, attr_map)\n            else:\n                new_iter = iter_default\n            body.append((0, new_iter, cview))\n        body.append((done_rows, content_iter, tail_cview))", "                new_iter = canv.content(trim_left, trim_top, cols, rows)\n            else:\n                new_iter = iter_default\n            body.append((0, new_iter, cview))\n        body.append((done_rows, content_iter, tail_cview))", "SIB|canvas.shard_body"),
+    Mut("delta-old-columns-with-new-tail", _C, "shards_delta", "shard_cview_columns(other_cviews, other_tail)", "shard_cview_columns(other_cviews, shard_tail)", "PAIR|canvas.shards_delta|columns of other_cviews"),
     Mut("left-trim-keeps-coords", _C, "CompositeCanvas.pad_trim_left_right", "                new_top_cviews = [(0, 0, left, rows, None, blank_canvas), *top_cviews]\n", "                new_top_cviews = [(0, 0, left, rows, None, blank_canvas), *top_cviews]\n                self.coords = self.translate_coords(left, 0)\n", "PAIR|canvas.CompositeCanvas.pad_trim_left_right", also=[("\n        self.coords = self.translate_coords(left, 0)\n        self.shards = shards\n", "\n        self.shards = shards\n")]),
     Mut("delta-row-memo-hoisted", _C, "CompositeCanvas.content_delta", "        for num_rows, cviews in shards_delta(self.shards, other.shards):\n            # combine shard and shard tail\n            sbody = shard_body(cviews, shard_tail)\n\n            # output rows\n            row = []\n", "        row = []\n        for num_rows, cviews in shards_delta(self.shards, other.shards):\n            # combine shard and shard tail\n            sbody = shard_body(cviews, shard_tail)\n\n            # output rows\n", "LOOPFRESH|canvas.CompositeCanvas.content_delta"),
     Mut("trim-sides-col-not-reset", _C, "shards_trim_sides", "        new_cviews = []\n        col = 0\n        for done_rows, _content_iter, cv in sbody:", "        new_cviews = []\n        for done_rows, _content_iter, cv in sbody:", "LOOPFRESH|canvas.shards_trim_sides", error_ok=True),
